@@ -2,12 +2,18 @@
 """C14 — JSON and Markdown output is always well-formed, deterministic and faithful.
 
 Correspondence: every object (harvested from the repo's own test inputs, or built by hand below) is
-abstracted to a `PyVal` term, the model renders it (`JS`, `MD`, `MDS` ops) and the text must equal
-`json.dumps(obj)` / `obj.as_markdown()` exactly.  Independently of the model the implementation-side oracle
+abstracted to a `PyVal` term, the model renders it (`JS`, `MD`, `MDS`, `MDE` ops) and the text must equal
+`json.dumps(obj)` / `obj.as_markdown()` exactly; the `DK` op evaluates the hypothesis of the set-order theorems
+(`distinctKeys`) on the term.  Independently of the model the implementation-side oracle
 checks on the real code: serialisation succeeds, `json.loads` accepts the document, Markdown is `str`, a
 second call gives the same text, the parse∘compose image serialises identically, equal sets built in a
-different insertion order serialise identically, the class-level encoder state is left as it was found,
-and the output is the same in child processes under different PYTHONHASHSEEDs and serialisation orders."""
+different insertion order serialise identically, the class-level encoder state is left as it was found (no class
+gains a `post_text_encoder` attribute, `Serializable.post_text_encoder` is the same object afterwards, also when
+the call raises), an encoder installed after a first serialisation is honoured, and the output is the same in
+child processes under different PYTHONHASHSEEDs and serialisation orders.
+
+Three defects this oracle used to report as known findings are repaired in the code (`set-iteration-order`,
+`encoder-pinned-on-class`, `markdown-not-text`); their detectors stay, so a reappearance is a violation."""
 from __future__ import print_function
 
 import collections
@@ -26,7 +32,8 @@ from harness import core, corpus
 LEAN_MODULES = ['CpProps.C14']
 RULE = ('CORPUS + CONSTRUCTED: every (class, bytes) pair the repo\'s own test-suite parses successfully (harvested at run '
         'time) plus hand-built objects (flag sets in several insertion orders, None-valued optionals, non-ASCII text, '
-        'unknown/GREASE code points, empty containers, dicts with enum / int / mixed keys, every member of every '
+        'unknown/GREASE code points, empty containers, dicts with enum / int / mixed keys, sets of strings / mixed content / '
+        'nested frozensets, every member of every '
         'enumeration of the library) is serialised by the real code and by the model; texts are compared exactly. A case is non-trivial '
         'when its JSON document is not a bare scalar and is distinct from every other case\'s document.')
 ASSUMPTIONS = [
@@ -35,6 +42,10 @@ ASSUMPTIONS = [
     'json.dumps of a tree of dict/list/str/int/float/bool/None is what Json.render transcribes (CPython json module)',
     'objects outside the model\'s domain (float/tuple dict keys, lone surrogates, non-ASCII dict keys) are counted '
     'and checked by the implementation-side oracle only',
+    'the set-order theorems assume distinctKeys (different elements of a set have different JSON documents); the DK op '
+    'evaluates it on every abstracted object and the cases where it is false are counted (distribution: distinct_keys)',
+    'the model carries no encoder state on its error path; that a raising as_markdown() leaves '
+    'Serializable.post_text_encoder in place (the `finally`) is checked on the implementation only',
 ]
 TRUSTED_EXTRA = ['harness/props/c14.py: abstract() — Python object -> PyVal term']
 
@@ -164,8 +175,7 @@ def abstract(obj):  # pylint: disable=too-many-return-statements,too-many-branch
     if hasattr(obj, '_asdict'):
         lit, arg = md_override(obj) if isinstance(obj, Serializable) else (None, None)
         inner = obj._asdict()
-        return ('A' + _hdr(obj, lit) + _metas(type(obj)) + ('1' + abstract(arg[0]) if arg else '0') +
-                hs('' if isinstance(inner, dict) else _safe_str(inner)) + abstract(inner))
+        return 'A' + _hdr(obj, lit) + _metas(type(obj)) + ('1' + abstract(arg[0]) if arg else '0') + abstract(inner)
     if isinstance(obj, dict) and not attr.has(type(obj)):
         ordered = isinstance(obj, collections.OrderedDict)
         return ('O' if ordered else 'U') + _pairs(obj.items(), not ordered)
@@ -198,6 +208,41 @@ def impl_markdown(obj):
     if isinstance(obj, Serializable):
         return obj.as_markdown()
     return Serializable._markdown_result(obj, 0)[1]
+
+
+def distinct_keys(obj):
+    """the implementation-side reading of `distinctKeys`: in every set reachable the way the traversals reach it,
+    different elements have different keys (the key `_get_ordered_set` sorts by)"""
+    attr, _, _, Serializable = _imports()
+
+    def key(item):
+        try:
+            return json.dumps(Serializable._json_traverse(item, Serializable._json_result))
+        except TypeError:
+            return 'null'
+
+    def walk(x):
+        if isinstance(x, enum.Enum):
+            return walk(x.value)
+        if isinstance(x, (set, frozenset)):
+            items = list(x)
+            keys = [key(i) for i in items]
+            return len(set(keys)) == len(keys) and all(walk(i) for i in items)
+        if isinstance(x, (str, bytes, bytearray, int, float)) or x is None:
+            return True
+        if hasattr(x, '_asdict'):
+            lit, arg = md_override(x) if isinstance(x, Serializable) else (None, None)
+            return all(walk(a) for a in (arg or [])) and walk(x._asdict())
+        if isinstance(x, dict) and not attr.has(type(x)):
+            return all(walk(k) and walk(v) for k, v in x.items())
+        if attr.has(type(x)):
+            return all(walk(getattr(x, name)) for name in attr.fields_dict(type(x)))
+        if hasattr(x, '__dict__'):
+            return all(walk(v) for v in x.__dict__.values())
+        if isinstance(x, (list, tuple)):
+            return all(walk(i) for i in x)
+        return True
+    return walk(obj)
 
 
 def pinned_classes():
@@ -315,6 +360,12 @@ def constructed_objects():
                                      MySQLCapability.CLIENT_LONG_PASSWORD, MySQLCapability.CLIENT_PLUGIN_AUTH]),
                           ('rdp', [RDPProtocol.SSL, RDPProtocol.HYBRID, RDPProtocol.HYBRID_EX])):
         objs['set-' + name] = Holder(set(members))
+    objs['set-strings'] = Holder({'beta', 'alpha', 'Gamma', 'é', '', 'a"b', '10', '9'})
+    objs['set-mixed'] = Holder({3, 'a', 10, 9, None, 1.5, b'\x01', (1, 2), Colour.RED, Level.HIGH})
+    objs['set-nested'] = Holder([frozenset({frozenset({2, 1}), frozenset({'x'}), frozenset()}), {Inner('b'), Inner('a')}
+                                 if Inner.__hash__ else set()])
+    objs['set-tied-keys'] = Holder(frozenset({(1, 2), frozenset({1, 2})}))        # two elements, one JSON document
+    objs['set-in-enum-key-dict'] = Holder(collections.OrderedDict([(Colour.GREEN, {'b', 'a'}), (7, frozenset({2, 11}))]))
     return objs
 
 
@@ -436,7 +487,7 @@ class TextOracle(object):
     @staticmethod
     def lines(case):
         term = term_of(case)
-        return ['JS ' + term, 'MD ' + term, 'MDS ' + term, 'MDE ' + term]
+        return ['JS ' + term, 'MD ' + term, 'MDS ' + term, 'MDE ' + term, 'DK ' + term]
 
     @staticmethod
     def impl(case):
@@ -447,7 +498,7 @@ class TextOracle(object):
         pins = sorted(cls.__module__ + '.' + cls.__qualname__ for cls in pinned_classes())
         clear_pins()
         mds = md + ' ' + (','.join(pins).encode('utf-8').hex() or '-') if md.startswith('OK') else md
-        return [js, md, mds, text_line(lambda: markdown_with_probe(obj))]
+        return [js, md, mds, text_line(lambda: markdown_with_probe(obj)), 'OK T' if distinct_keys(obj) else 'OK F']
 
     @staticmethod
     def prop(case):
@@ -469,12 +520,20 @@ def check_object(case, obj):
     except ValueError as e:
         bad.append(('json-not-wellformed', 'json.loads rejects the output: {}'.format(e)))
     clear_pins()
+    installed = Serializable.__dict__['post_text_encoder']
     try:
         md = impl_markdown(obj)
     except Exception as e:  # pylint: disable=broad-except
         where = traceback.extract_tb(e.__traceback__)[-1].name
+        if Serializable.__dict__['post_text_encoder'] is not installed or pinned_classes():
+            Serializable.post_text_encoder = installed
+            clear_pins()
+            bad.append(('encoder-not-restored', 'a raising as_markdown() left another post_text_encoder installed'))
         return bad + [('markdown-raises-in-' + where, 'Markdown serialisation raised {}: {} (in {})'.format(
             type(e).__name__, e, where))]
+    if Serializable.__dict__['post_text_encoder'] is not installed:
+        Serializable.post_text_encoder = installed
+        bad.append(('encoder-not-restored', 'as_markdown() left another post_text_encoder installed on Serializable'))
     if not isinstance(md, str) and not type(obj).__module__.startswith('test.'):      # a test class may return anything
         bad.append(('markdown-not-text', 'as_markdown() returned {} ({!r}), not text'.format(type(md).__name__, md)))
     if pinned_classes():
@@ -702,23 +761,30 @@ def run(run, driver_ok=True, deep=False):  # pylint: disable=redefined-outer-nam
         for key, message in check_set_pair(case):
             run.finding(key, message, case)
     run.count('cases', 'set-order', len(pairs))
-    # observable effect of the encoder pin, on the first object that pins
-    for case in usable:
+    # an encoder installed after a first serialisation is honoured: same text as in a fresh class state
+    probe = [c for c in usable if c['kind'] in ('built', 'library')]
+    corp_all = [c for c in usable if c['kind'] == 'corpus']
+    probe += corp_all if run.tier != 'quick' else run.rng.sample(corp_all, min(len(corp_all), 150))
+    for case in probe:
         obj = build(case)
-        clear_pins()
+        run.evaluations += 1
         try:
-            impl_markdown(obj)
-        except Exception:  # pylint: disable=broad-except
-            continue
-        if pinned_classes():
             fresh, after = check_encoder_effect(obj)
-            if fresh != after:
-                run.finding('encoder-pinned-on-class',
-                            'with the same encoder installed on Serializable, as_markdown() of the same object differs depending on '
-                            'whether its class rendered Markdown before: {!r} vs {!r}'.format(fresh[:200], after[:200]),
-                            dict(case, encoder_effect=True))
-            break
+        except Exception:  # pylint: disable=broad-except
+            continue                                        # a raising object: reported by check_object
+        if fresh != after:
+            run.finding('encoder-pinned-on-class',
+                        'with the same encoder installed on Serializable, as_markdown() of the same object differs depending on '
+                        'whether its class rendered Markdown before: {!r} vs {!r}'.format(fresh[:200], after[:200]),
+                        dict(case, encoder_effect=True))
+    run.count('cases', 'encoder-effect', len(probe))
     clear_pins()
+    # the hypothesis of the set-order theorems on the objects explored
+    for case in usable:
+        try:
+            run.count('distinct_keys', 'holds' if distinct_keys(build(case)) else 'fails (two elements of a set share a JSON document)')
+        except Exception:  # pylint: disable=broad-except
+            run.count('distinct_keys', 'not evaluated (raises)')
     # other processes: hash seeds and serialisation orders
     sample = [c for c in usable if c['kind'] != 'corpus']
     corp = [c for c in usable if c['kind'] == 'corpus']
